@@ -398,6 +398,26 @@ theorem power_iteration_sum_one (outs : List Outcomes) (pcs : List PerClass) (hn
   have := iterate_facts outs pcs.length hn eps fuel (startVec pcs) hs.1
   rw [this.2.1, hs.2.1]
 
+/-- **restored_start_in_open_interval.**  For EVERY value of `initial_page_rank_probability`
+that can be read back from the Initial Size Class Cache — NaN, +Inf, -Inf, negative, zero,
+denormal, one, larger than one (non-finite values are explicit constructors of `StoredProb`,
+not real numbers) — the restore guard of `GetStrategies`
+(`probability := 0.5; if restored > 0 && restored < 1 { probability = restored }`) yields a
+starting probability strictly between 0 and 1: no stored value can poison the power iteration.
+Hence every restored entry of the starting vector of every message is in (0,1). -/
+theorem restored_start_in_open_interval :
+    (∀ v : StoredProb, 0 < restoredOf v ∧ restoredOf v < 1) ∧
+    (∀ pcs : List PerClass, ∀ x ∈ restored pcs, 0 < x ∧ x < 1) := by
+  refine ⟨restoredOf_range, ?_⟩
+  intro pcs x hx
+  simp only [restored, List.mem_map] at hx
+  obtain ⟨pc, _, rfl⟩ := hx
+  exact restoredOf_range pc.prob
+
+example : restoredOf .nan = 1 / 2 ∧ restoredOf .posInf = 1 / 2 ∧ restoredOf .negInf = 1 / 2 ∧
+    restoredOf (.fin 0) = 1 / 2 ∧ restoredOf (.fin 1) = 1 / 2 ∧ restoredOf (.fin (-1 / 4)) = 1 / 2 ∧
+    restoredOf (.fin (3 / 2)) = 1 / 2 ∧ restoredOf (.fin (1 / 1024)) = 1 / 1024 := by decide +kernel
+
 /-- **probabilities_range.**  Whenever the starting vector is non-negative — the restored
 probabilities (those strictly between 0 and 1, otherwise 1/2) of all size classes but the
 first sum to at most one; this is always so for at most three size classes without restored
